@@ -69,19 +69,64 @@ type c32S3 struct {
 	mpus    map[string]*c32MPU
 	seq     int
 	// fault plan: operation name -> "before" (no effect, error) | "after" (effect, error)
-	fault map[string]string
-	ops   []string
+	fault      map[string]string
+	faultTimes map[string]int
+	ops        []string
+	// completion gate: CompleteMultipartUpload announces itself on atGate and waits for release
+	gateComplete bool
+	atGate       chan struct{}
+	release      chan struct{}
 }
 
 func newC32S3() *c32S3 {
-	return &c32S3{objects: map[string][]byte{}, mpus: map[string]*c32MPU{}, fault: map[string]string{}}
+	return &c32S3{objects: map[string][]byte{}, mpus: map[string]*c32MPU{}, fault: map[string]string{}, faultTimes: map[string]int{}}
 }
 
 var errC32Injected = errors.New("c32: injected S3 failure")
 
+// begin logs the call and returns the fault to apply. Faults are transient: a planned fault
+// fires faultTimes[op] times (default once) and then disappears.
 func (f *c32S3) begin(op string) string {
 	f.ops = append(f.ops, op)
-	return f.fault[op]
+	fl := f.fault[op]
+	if fl != "" {
+		if n := f.faultTimes[op]; n > 1 {
+			f.faultTimes[op] = n - 1
+		} else {
+			delete(f.fault, op)
+			delete(f.faultTimes, op)
+		}
+	}
+	return fl
+}
+
+// readBody consumes the request body; for a "mid" fault only the first half is read (the
+// connection broke mid-transfer) and the call fails without any effect.
+func c32ReadBody(fl string, body io.Reader) ([]byte, error) {
+	if fl == "mid" {
+		probe := make([]byte, 1<<20)
+		total := 0
+		// read roughly half of what is there: first learn the size if the reader knows it
+		if l, ok := body.(interface{ Len() int }); ok {
+			half := l.Len() / 2
+			for total < half {
+				want := half - total
+				if want > len(probe) {
+					want = len(probe)
+				}
+				n, err := body.Read(probe[:want])
+				total += n
+				if err != nil {
+					break
+				}
+			}
+		} else {
+			n, _ := body.Read(probe[:1])
+			total += n
+		}
+		return nil, fmt.Errorf("%w: connection reset after %d body bytes", errC32Injected, total)
+	}
+	return io.ReadAll(body)
 }
 
 func (f *c32S3) PutObject(ctx context.Context, in *s3.PutObjectInput, _ ...func(*s3.Options)) (*s3.PutObjectOutput, error) {
@@ -91,7 +136,7 @@ func (f *c32S3) PutObject(ctx context.Context, in *s3.PutObjectInput, _ ...func(
 	if fl == "before" {
 		return nil, errC32Injected
 	}
-	data, err := io.ReadAll(in.Body)
+	data, err := c32ReadBody(fl, in.Body)
 	if err != nil {
 		return nil, err
 	}
@@ -132,7 +177,7 @@ func (f *c32S3) UploadPart(ctx context.Context, in *s3.UploadPartInput, _ ...fun
 	if u == nil || u.key != aws.ToString(in.Key) {
 		return nil, errors.New("c32 s3: NoSuchUpload")
 	}
-	data, err := io.ReadAll(in.Body)
+	data, err := c32ReadBody(fl, in.Body)
 	if err != nil {
 		return nil, err
 	}
@@ -153,6 +198,14 @@ func (f *c32S3) UploadPart(ctx context.Context, in *s3.UploadPartInput, _ ...fun
 }
 
 func (f *c32S3) CompleteMultipartUpload(ctx context.Context, in *s3.CompleteMultipartUploadInput, _ ...func(*s3.Options)) (*s3.CompleteMultipartUploadOutput, error) {
+	f.mu.Lock()
+	gate := f.gateComplete
+	f.gateComplete = false
+	f.mu.Unlock()
+	if gate {
+		close(f.atGate)
+		<-f.release
+	}
 	f.mu.Lock()
 	defer f.mu.Unlock()
 	fl := f.begin("CompleteMultipartUpload")
@@ -733,7 +786,7 @@ func TestVF_C32_Single(t *testing.T) {
 		faultOp, faultKind := "", ""
 		if rapid.IntRange(0, 4).Draw(t, "withFault") == 0 {
 			faultOp = rapid.SampledFrom([]string{"PutObject", "PutObject", "CreateMultipartUpload", "UploadPart", "CompleteMultipartUpload", "DeleteObject"}).Draw(t, "faultOp")
-			faultKind = rapid.SampledFrom([]string{"before", "after"}).Draw(t, "faultKind")
+			faultKind = rapid.SampledFrom([]string{"before", "after", "mid"}).Draw(t, "faultKind")
 		}
 		plan := rapid.SampledFrom(c32BrokerPlans).Draw(t, "broker")
 		topic := rapid.SampledFrom([]string{"uploads", "uploads", "uploads", "uploads", "a.b-c_d", "a.b-c_d", "T", "bad topic", ""}).Draw(t, "topic")
@@ -785,17 +838,21 @@ func c32JSONReq(method, path string, v any) *http.Request {
 }
 
 type c32SessionPlan struct {
-	sizes     []int
-	stamps    [][16]byte
-	declDelta int64
-	alg       string
-	ckKind    string
-	listKind  string
-	retryKind string
-	faultOp   string
-	faultKind string
-	broker    c32BrokerPlan
-	resend    bool
+	sizes      []int
+	stamps     [][16]byte
+	declDelta  int64
+	alg        string
+	ckKind     string
+	listKind   string
+	retryKind  string
+	faultOp    string
+	faultKind  string
+	broker     c32BrokerPlan
+	resend     bool
+	faultTimes int // how many consecutive calls the injected fault hits (0/1 = once)
+	// abortDuringComplete: DELETE /lfs/uploads/<id> arrives while the first completion is
+	// inside S3 CompleteMultipartUpload (a watchdog / second tab cancelling a slow upload)
+	abortDuringComplete bool
 	// clientRetries: the client repeats an init / completion request once after a 5xx answer
 	// (the injected S3 fault is transient: it hits one call), with retryBroker for the repeat
 	clientRetries bool
@@ -901,8 +958,11 @@ func c32RunSession(st *vfkit.Stats, br *c32Broker, p c32SessionPlan) (string, c3
 	}
 	base := "/lfs/uploads/" + initResp.UploadID
 	etags := map[int32]string{}
+	partFaultArmed := false
 	if p.faultOp == "UploadPart" {
 		fs.fault[p.faultOp] = p.faultKind
+		fs.faultTimes[p.faultOp] = p.faultTimes
+		partFaultArmed = true
 	}
 	putPart := func(n int, piece c32Piece) int {
 		req := httptest.NewRequest(http.MethodPut, fmt.Sprintf("%s/parts/%d", base, n), piece.reader())
@@ -926,7 +986,8 @@ func c32RunSession(st *vfkit.Stats, br *c32Broker, p c32SessionPlan) (string, c3
 	}
 	for i, piece := range pieces {
 		code := putPart(i+1, piece)
-		if code == http.StatusBadGateway && fs.fault["UploadPart"] != "" {
+		if code == http.StatusBadGateway && partFaultArmed {
+			partFaultArmed = false
 			// a part upload that failed at S3 (injected) is retried once by the client, unless
 			// exactly that history is a listed finding
 			if p.noRetry {
@@ -966,11 +1027,47 @@ func c32RunSession(st *vfkit.Stats, br *c32Broker, p c32SessionPlan) (string, c3
 		wantPart = *p.partition
 	}
 	lastStatus := 0
+	raceAbort := p.abortDuringComplete
 	complete := func(kind string, plan c32BrokerPlan) string {
 		br.set(plan)
 		list := c32BuildList(kind, etags, len(etags))
 		rr := httptest.NewRecorder()
-		m.handleHTTPUploadSession(rr, c32JSONReq(http.MethodPost, base+"/complete", map[string]any{"parts": list}))
+		if raceAbort {
+			raceAbort = false
+			fs.mu.Lock()
+			fs.gateComplete, fs.atGate, fs.release = true, make(chan struct{}), make(chan struct{})
+			atGate, release := fs.atGate, fs.release
+			fs.mu.Unlock()
+			done := make(chan struct{})
+			go func() {
+				defer close(done)
+				m.handleHTTPUploadSession(rr, c32JSONReq(http.MethodPost, base+"/complete", map[string]any{"parts": list}))
+			}()
+			select {
+			case <-atGate:
+				// the completion holds the session and sits inside S3; the abort arrives now
+				started := make(chan struct{})
+				abortDone := make(chan int, 1)
+				go func() {
+					close(started)
+					ar := httptest.NewRecorder()
+					m.handleHTTPUploadSession(ar, httptest.NewRequest(http.MethodDelete, base, nil))
+					abortDone <- ar.Code
+				}()
+				<-started
+				time.Sleep(20 * time.Millisecond) // scheduling aid only: lets the abort reach the session lock; no verdict depends on it
+				close(release)
+				<-done
+				st.Class(fmt.Sprintf("abort-during-complete:abort-status:%d", <-abortDone))
+			case <-done:
+				fs.mu.Lock()
+				fs.gateComplete = false
+				fs.mu.Unlock()
+				st.Class("abort-during-complete:completion-never-reached-S3")
+			}
+		} else {
+			m.handleHTTPUploadSession(rr, c32JSONReq(http.MethodPost, base+"/complete", map[string]any{"parts": list}))
+		}
 		sample.Statuses = append(sample.Statuses, rr.Code)
 		lastStatus = rr.Code
 		st.Class(fmt.Sprintf("session-complete-status:%d", rr.Code))
@@ -1057,6 +1154,19 @@ func TestVF_C32_Session(t *testing.T) {
 			p.broker = c32BrokerPlan{Kind: "ack"}
 			st.Class("class:transient-s3-failure-with-retries")
 		}
+		if p.faultOp != "" {
+			// the fault hits one call (transient) or three in a row; a part/object upload may also
+			// break in the middle of the body
+			p.faultTimes = rapid.SampledFrom([]int{1, 1, 1, 3}).Draw(t, "faultTimes")
+			if p.faultOp == "UploadPart" && rapid.IntRange(0, 2).Draw(t, "midBody") == 0 {
+				p.faultKind = "mid"
+			}
+			st.Class("s3-fault-kind:" + p.faultKind)
+		}
+		p.abortDuringComplete = rapid.IntRange(0, 5).Draw(t, "abortDuringComplete") == 0
+		if p.abortDuringComplete {
+			st.Class("abort-during-complete")
+		}
 		p.resend = rapid.IntRange(0, 3).Draw(t, "resend") == 0
 		p.outOfOrder = rapid.IntRange(0, 5).Draw(t, "outOfOrder") == 0
 		if rapid.Bool().Draw(t, "withPartition") {
@@ -1083,8 +1193,8 @@ func TestVF_C32_Session(t *testing.T) {
 		if viol != "" {
 			t.Fatalf("%s", viol)
 		}
-		if p.broker.Kind != "ack" || p.listKind != "full" || p.faultOp != "" {
-			st.NonTrivial("session", p.sizes, p.declDelta, p.alg, p.ckKind, p.listKind, p.retryKind, p.faultOp, p.faultKind, p.broker.Kind, p.broker.Code, p.resend, p.outOfOrder, p.clientRetries, p.retryBroker != nil)
+		if p.broker.Kind != "ack" || p.listKind != "full" || p.faultOp != "" || p.abortDuringComplete {
+			st.NonTrivial("session", p.sizes, p.declDelta, p.alg, p.ckKind, p.listKind, p.retryKind, p.faultOp, p.faultKind, p.broker.Kind, p.broker.Code, p.resend, p.outOfOrder, p.clientRetries, p.retryBroker != nil, p.faultTimes, p.abortDuringComplete)
 			st.Sample(sample)
 		}
 	})
@@ -1107,8 +1217,8 @@ func TestVF_C32_RetryEnum(t *testing.T) {
 	copy(stampB[:], "retry-enum-part2")
 	ack := c32BrokerPlan{Kind: "ack"}
 	for _, op := range []string{"", "CreateMultipartUpload", "UploadPart", "CompleteMultipartUpload", "AbortMultipartUpload"} {
-		for _, kind := range []string{"before", "after"} {
-			if op == "" && kind == "after" {
+		for _, kind := range []string{"before", "after", "mid"} {
+			if (op == "" && kind != "before") || (kind == "mid" && op != "UploadPart") {
 				continue
 			}
 			for _, sizes := range [][]int{{300}, {c32MiB5, 77}} {
@@ -1128,7 +1238,21 @@ func TestVF_C32_RetryEnum(t *testing.T) {
 			}
 		}
 	}
-	st.Note("enumerated", "S3 fault point {none, create, part, complete, abort} x {before, after effect} x parts {1, 2} x first broker behaviour {ack, close} x alg {sha256, crc32}; every failed init/part/complete request is retried once")
+	// a DELETE of the session arriving while its completion is inside S3
+	for _, sizes := range [][]int{{300}, {c32MiB5, 77}} {
+		for _, alg := range []string{"", "md5"} {
+			st.Eval()
+			p := c32SessionPlan{sizes: sizes, stamps: [][16]byte{stampA, stampB}[:len(sizes)], alg: alg, ckKind: "correct", listKind: "full",
+				broker: ack, abortDuringComplete: true, keyB64: "a2V5"}
+			viol, sample := c32RunSession(st, br, p)
+			if viol != "" {
+				t.Fatalf("%s\n(a DELETE of the session arrived while the completion was inside S3 CompleteMultipartUpload)", viol)
+			}
+			st.NonTrivial("abort-race", sizes, alg)
+			st.Sample(sample)
+		}
+	}
+	st.Note("enumerated", "S3 fault point {none, create, part, complete, abort} x {before, after effect, mid-body (part)} x parts {1, 2} x first broker behaviour {ack, close} x alg {sha256, crc32}; every failed init/part/complete request is retried once")
 }
 
 // TestVF_C32_Witness replays minimal witnesses of the listed findings.
